@@ -194,46 +194,49 @@ theorem putCRL_serves (g : CTgt) (s : St) (n : Nat) (ser : List Nat) (d : Bool) 
 theorem rebuild_buildW (g : CTgt) (s : St) (hf : Frame g s) (f : Bool) (a b : List Nat) :
     ∀ st ∈ rebuildSteps s f a b, buildW g st := by
   intro st h
-  unfold rebuildSteps at h
-  split at h
-  · simp at h
-  · simp only [List.mem_append, List.mem_map, List.mem_filter, List.mem_singleton] at h
-    rcases h with (((⟨i, _, rfl⟩ | h) | rfl) | ⟨i, _, rfl⟩) | rfl
+  rcases rebuild_mem s f a b st h with ⟨i, _, _, rfl⟩ | h | ⟨_, rfl⟩ | ⟨_, _, rfl⟩
+  · trivial
+  · rcases staleDeletes_kind' s st h with ⟨i, rfl, hi⟩ | ⟨i, rfl⟩
+    · exact fun e => hi (e ▸ hf.live)
     · trivial
-    · rcases staleDeletes_kind' s st h with ⟨i, rfl, hi⟩ | ⟨i, rfl⟩
-      · exact fun e => hi (e ▸ hf.live)
-      · trivial
-    · trivial
-    · trivial
-    · trivial
+  · trivial
+  · trivial
 
 theorem rebuild_fresh (g : CTgt) (s : St) (hf : Frame g s) (hr : Rec g s) (f : Bool) (a b : List Nat) :
     ∀ st ∈ rebuildSteps s f a b, freshW g st := by
   intro st h
   obtain ⟨t, ht⟩ := hr
-  unfold rebuildSteps at h
-  split at h
-  · simp at h
-  · simp only [List.mem_append, List.mem_map, List.mem_filter, List.mem_singleton] at h
-    rcases h with (((⟨i, _, rfl⟩ | h) | rfl) | ⟨i, _, rfl⟩) | rfl
-    · intro hi
-      subst hi
-      simp only [hf.enabled, Bool.false_eq_true, ↓reduceIte]
-      exact mem_crlSerials s ⟨g.k, g.c, t⟩ hf.cert ht hf.live
-    · rcases staleDeletes_kind s st h with ⟨i, rfl⟩ | ⟨i, rfl⟩ <;> trivial
-    · trivial
-    · trivial
-    · trivial
+  rcases rebuild_mem s f a b st h with ⟨i, _, _, rfl⟩ | h | ⟨_, rfl⟩ | ⟨_, _, rfl⟩
+  · intro hi
+    subst hi
+    simp only [hf.enabled, Bool.false_eq_true, ↓reduceIte]
+    exact mem_crlSerials s ⟨g.k, g.c, t⟩ hf.cert ht hf.live
+  · rcases staleDeletes_kind s st h with ⟨i, rfl⟩ | ⟨i, rfl⟩ <;> trivial
+  · trivial
+  · trivial
 
 /-- a rebuild in an enabled mount writes the CRL of every live issuer that the runtime's order covers -/
+theorem mem_phaseSteps_mk (mk : Nat → Step) (kOf : List Nat → Step) : ∀ (L done : List Nat) (a : Nat),
+    a ∈ L → mk a ∈ phaseSteps mk kOf done L := by
+  intro L
+  induction L with
+  | nil => intro _ a h; simp at h
+  | cons x L ih =>
+    intro done a h
+    simp only [phaseSteps, List.mem_cons]
+    rcases List.mem_cons.mp h with rfl | h
+    · exact Or.inr (Or.inl rfl)
+    · exact Or.inr (Or.inr (ih _ a h))
+
 theorem rebuild_has_putCRL (g : CTgt) (s : St) (hf : Frame g s) (f : Bool) (a b : List Nat) (ha : g.c.issuer ∈ a) :
     ∃ n ser d, Step.putCRL g.c.issuer n ser d ∈ rebuildSteps s f a b := by
   refine ⟨counter s g.c.issuer, crlSerials s g.c.issuer, false, ?_⟩
   unfold rebuildSteps
   rw [hf.enabled]
-  simp only [Bool.false_and, Bool.false_eq_true, ↓reduceIte, List.mem_append, List.mem_map, List.mem_filter,
-    List.mem_singleton]
-  exact Or.inl (Or.inl (Or.inl (Or.inl ⟨g.c.issuer, ⟨ha, by simpa using hf.live⟩, rfl⟩)))
+  simp only [Bool.false_and, Bool.false_eq_true, ↓reduceIte, List.mem_append]
+  refine Or.inl (Or.inl (Or.inl (Or.inl ?_)))
+  exact mem_phaseSteps_mk (fun i => Step.putCRL i (counter s i) (crlSerials s i) false) _ _ []
+    g.c.issuer (List.mem_filter.mpr ⟨ha, by simpa using hf.live⟩)
 
 theorem tok_build (g : CTgt) (isRev rec : Bool) (l : List Step) (r : List Act)
     (hb : ∀ st ∈ l, buildW g st ∧ (isRev = true → rec = true ∧ freshW g st)) (hr : Tok g isRev rec false r) :
